@@ -816,3 +816,32 @@ Proof.
     + apply opcode_of_value_none; [apply N.mod_lt; lia|assumption].
     + rewrite P in R. now apply refines_err.
 Qed.
+
+(* ================= a stream of frames (used by the message layer, C11) ================= *)
+(* k successive calls of the decoder on the same reader *)
+Fixpoint decode_many (k : nat) (cs : chunks) : outcome (list frame * chunks) :=
+  match k with
+  | O => Ok ([], cs)
+  | S k' =>
+    match decode cs with
+    | Ok (f, cs1) =>
+      match decode_many k' cs1 with
+      | Ok (fs, cs2) => Ok (f :: fs, cs2)
+      | Err e => Err e
+      | Crash w => Crash w
+      end
+    | Err e => Err e
+    | Crash w => Crash w
+    end
+  end.
+
+Theorem decode_many_encode fs : forall rest cs,
+  Forall wf fs -> wf_chunks cs -> concat cs = concat (map encode fs) ++ rest ->
+  exists cs', decode_many (length fs) cs = Ok (map norm fs, cs') /\ concat cs' = rest /\ wf_chunks cs'.
+Proof.
+  induction fs as [|f fs IH]; intros rest cs HW W Hc; cbn [length decode_many map concat] in *.
+  - exists cs. auto.
+  - inversion HW as [|? ? Hf HW']; subst. rewrite <- app_assoc in Hc.
+    destruct (decode_encode f _ cs Hf W Hc) as (cs1 & -> & Hc1 & W1).
+    destruct (IH rest cs1 HW' W1 Hc1) as (cs2 & -> & Hc2 & W2). exists cs2. auto.
+Qed.
